@@ -28,7 +28,7 @@ pub fn run_churn(seed: u64, total_ops: u64, out: &mut RunOut) {
     let mut done = 0u64;
     while done < total_ops {
         let len = match rng.below(6) { 0 => 1, 1 => 2, 2 => rng.range(3, 16), 3 => rng.range(17, 64), _ => rng.range(65, 300) };
-        let hk = rng.below(4) as u8;
+        let hk = TH_KINDS[rng.usize_below(TH_KINDS.len())];
         // the limit holds exactly `len` entries of the base size: every further insertion evicts
         let cfg = HistCfg { hk, cap0: match rng.below(3) { 0 => None, 1 => Some(0), _ => Some(rng.usize_below(len + 2)) }, max: base * len, universe: (len * 3) as u32 + 3, events: 0, extreme: false };
         let mut c: Cache<TH> = TH::make(cfg.max, cfg.cap0, hk);
